@@ -16,7 +16,7 @@ MANIFEST = {
     "text": "decides, per enumerated shape and for all input values: HKDF/HKDFA (RFC 5869, salt present/absent, "
             "info, chunked expansion, expansion from arbitrary mid-stream states around the 255-block limit incl. "
             "refusal with -1 and zero-fill, and the one-shot limit: 8160 bytes served and equal to the RFC, 8161 "
-            "refused without writing), KDF/KDFA (cXOF 'KDF'), PBKDF2 (RFC 8018: block index from 1 big-endian, "
+            "refused without writing), KDF/KDFA (cXOF 'KDF', one-shot and incremental with declared lengths), PBKDF2 (RFC 8018: block index from 1 big-endian, "
             "XOR of U1..Uc, count 0 as 1, truncated last block) and PBKDF2-HMAC equal their specifications with "
             "the permutation uninterpreted; iteration counts beyond 3 and lengths beyond the shapes are not "
             "decided",
